@@ -96,7 +96,7 @@ def run(ctx):
 
     quick = ctx.tier == "quick"
     rnd = random.Random(ctx.seed)
-    ctx.rule = ("R: every entry table <= MaxLines over 24 entry shapes (TLC-exported expected table) x chunk schedules "
+    ctx.rule = ("R: every entry table <= MaxLines over 36 entry shapes (TLC-exported expected table) x chunk schedules "
                 "{whole, every 2-split, 1-byte, fixed 2..7}; every abstract file (header variants, truncations) x every partition. "
                 "V: random inventories x random chunk sizes. non-trivial = table has a duplicate key, a malformed line, '$' or a spaced name / file read in > 1 chunk")
     ctx.assumptions += ["streaming zlib decompression is a homomorphism over concatenation",
@@ -197,7 +197,7 @@ def _serialise(lines):
     for k, e in enumerate(lines, 1):
         dom, typ, colon = e["ty"]
         tfield = f"{dom}:{typ}" if colon else dom
-        loc = "p.html#" + ("$" if e["dollar"] else f"q{k}")
+        loc = "" if e["eloc"] else "p.html#" + ("$" if e["dollar"] else f"q{k}")
         out.append(f"{e['name']} {tfield} {(-1) ** k * k} {loc} {e['disp']}\n")
     body = "".join(out)
     data = f"{H2}\n# Project: Pr oj\n# Version: 1.0\n{ZL}\n".encode() + zlib.compress(body.encode())
@@ -212,7 +212,7 @@ def _replay_table(ctx, I, rec, idx, rnd, quick):
     if sorted(sph, key=repr) != sorted(exp, key=repr):
         raise tlc.MachineryFailure(f"InvEntry model disagrees with Sphinx's loader on {text!r}: {exp} vs {sph}")
     keys = [(e["ty"][0], e["ty"][1], e["name"]) for e in rec["lines"] if e["ty"][2]]
-    nontrivial = len(set(keys)) < len(keys) or any(not e["ty"][2] or e["dollar"] or " " in e["name"] for e in rec["lines"])
+    nontrivial = len(set(keys)) < len(keys) or any(not e["ty"][2] or e["dollar"] or e["eloc"] or " " in e["name"] for e in rec["lines"])
     scheds = [[len(data)], [1] * len(data)]
     if idx % 50 == 0:
         scheds += [[k] for k in range(1, len(data))]
@@ -386,7 +386,7 @@ def _random_load(ctx, I, rnd, t, long_header=False):
                 lines.append("\n")
             else:
                 typ = rnd.choice(["py:function", "std:label", "py:module", "c:macro"])
-                loc = rnd.choice(["api.html#$", f"x/{j}.html", "i.html#a-$"])
+                loc = rnd.choice(["api.html#$", f"x/{j}.html", "i.html#a-$", "", "$"])
                 disp = rnd.choice(["-", "Display Name", "a  b"])
                 lines.append(f"{name} {typ} {rnd.choice([1, -1, 0, 2])} {loc} {disp}\n")
                 names.append(j)
